@@ -228,6 +228,9 @@ def gen_ir(seed):
                 ops.append(["ungrow", mi, n - rng.below(3)])
         elif x < 98 and p_vm:
             ops.append(["mut", rng.below(3), rng.below(3)])
+        elif x < 99:
+            # the caller changes the vector an enumeration handed out: later enumerations (of any map) must not see that
+            ops.append(["enum_push", mi, rng.choice(["keys", "values", "items"])])
         else:
             ops.append(["churn", rng.range(1, 6)])
     # the whole operation sequence may run inside a fiber (then `runner` is the running fiber itself)
@@ -278,6 +281,8 @@ def render(ir):
         elif k == "mut":
             e("mv%d.push(%d);" % (op[1], i))
             continue
+        elif k == "enum_push":
+            body = 'var en = %s.%s(); en.push("junk%d"); print(("ev", %d, en.len()));' % (m, op[2], i, i)
         elif k == "grow":
             body = 'for gi in 0..%d { %s.insert(1000 + gi, gi); } print(("ev", %d, "grow", %s.len(), %s.get(1000), %s.get(%d)));' % (op[2], m, i, m, m, m, 1000 + op[2] - 1)
         elif k == "ungrow":
@@ -349,6 +354,9 @@ def model(ir):
             probes.inc("map_grown_by_insert")
             ev.append((i, "plain", [num(i), s("grow"), num(len(mp)), num(0), num(op[2] - 1)]))
             probes.max("map_size", len(mp))
+            continue
+        if k == "enum_push":
+            ev.append((i, "plain", [num(i), num(len(mp) + 1)]))
             continue
         if k == "ungrow":
             gone = 0
